@@ -201,8 +201,8 @@ func init() {
 	client.ConnFactories["verifrig"] = func(c *client.Client, network, address string) (net.Conn, error) {
 		return rigConn{getRig()}, nil
 	}
-	client.VerifSetHook(func(point string, args ...interface{}) {
-		if point != "client.send.enter" || len(args) == 0 {
+	hookHandlers["client.send.enter"] = func(args ...interface{}) {
+		if len(args) == 0 {
 			return
 		}
 		call, ok := args[0].(*client.Call)
@@ -220,7 +220,7 @@ func init() {
 		g := r.gate(r.sendGate, a.ID)
 		g.arrived <- struct{}{}
 		<-g.release
-	})
+	}
 }
 
 // ---- a scheduled run -------------------------------------------------------------------------
